@@ -80,7 +80,7 @@ def cases(tier):
             yield {"kind": kind, "store": list(store), "tier": tier}
 
 
-def run_one(kind, store, used, shallow, dry, cachemode, read_only=False, cache_ro=False):
+def run_one(kind, store, used, shallow, dry, cachemode, read_only=False, cache_ro=False, unpacked=False):
     """One gc call on a freshly built store; returns (violations, outcome)."""
     from dvc_objects.errors import ObjectDBPermissionError
 
@@ -96,7 +96,16 @@ def run_one(kind, store, used, shallow, dry, cachemode, read_only=False, cache_r
             cache_odb = make_odb("local", w.p("cache"), read_only=cache_ro)
             for n in TREES:
                 put_raw(cache_odb, oid_of(n), bytes_of(n))
-        before = objects_only(store_snapshot(odb.path))
+        if unpacked:
+            # legacy artefact next to a directory object: <oid>.unpacked/ (not an object)
+            for n in store:
+                if n in TREES:
+                    d = odb.oid_to_path(oid_of(n)) + ".unpacked"
+                    os.makedirs(d, exist_ok=True)
+                    with open(os.path.join(d, "legacy"), "wb") as fh:
+                        fh.write(b"legacy")
+        full_before = store_snapshot(odb.path)
+        before = objects_only(full_before)
         store_oids = set(before)
 
         # reference
@@ -133,7 +142,11 @@ def run_one(kind, store, used, shallow, dry, cachemode, read_only=False, cache_r
             )
         except BaseException as e:  # noqa: BLE001
             exc = e
-        after = objects_only(store_snapshot(odb.path))
+        full_after = store_snapshot(odb.path)
+        after = objects_only(full_after)
+        if dry and exc is None and full_after != full_before:
+            gone = sorted(str(k) for k in set(full_before) - set(full_after))
+            viol.append(("dry-run-removed-something", f"{gone[:4]}"))
         removed = store_oids - set(after)
         changed = {o for o in after if o in before and after[o][0] != before[o][0]}
         added = set(after) - store_oids
@@ -222,6 +235,18 @@ def run_case(case):
                         res["vac"]["removed_something"] += 1
                     for sig, detail in viol:
                         res["viol"].append((sig, detail, sub))
+    # legacy '.unpacked' directories next to directory objects: a dry run must leave them alone too
+    if any(n in TREES for n in store) and case["kind"] == "local":
+        for used in ([], ["A"], ["B"]):
+            for dry in (True, False):
+                sub = {"kind": case["kind"], "store": store, "used": used, "shallow": True, "dry": dry,
+                       "cachemode": "self", "ro": False, "unpacked": True}
+                viol, outcome = run_one(case["kind"], store, used, True, dry, "self", unpacked=True)
+                res["n"] += 1
+                res["trans"] += 1
+                res["outcomes"].add(repr(outcome))
+                for sig, detail in viol:
+                    res["viol"].append((sig + "/unpacked-dir", detail, sub))
     # read-only refusal, once per store content (also with a separate, writable cache_odb), and the
     # converse: a writable store with a read-only cache_odb is collected normally
     for dry in (False, True):
@@ -246,7 +271,9 @@ def run_case(case):
 def replay(case):
     viol, _ = run_one(case["kind"], case["store"], case["used"], case["shallow"],
                       case["dry"], case["cachemode"], read_only=case.get("ro", False),
-                      cache_ro=case.get("cache_ro", False))
+                      cache_ro=case.get("cache_ro", False), unpacked=case.get("unpacked", False))
+    if case.get("unpacked"):
+        viol = [(s_ + "/unpacked-dir", d) for s_, d in viol]
     if case.get("cache_ro"):
         viol = [(s_ + "/read-only-cache_odb", d) for s_, d in viol]
     return viol
